@@ -74,33 +74,70 @@ fn segtok(segs: &[Vec<u8>]) -> String {
     }
 }
 
-fn request(ep: u8, path: &str, tok: &[u8], mid: u16) -> CoapRequest<Ep> {
+/// fields of the request object that the registry's contract does not name (C14: endpoint, token and
+/// path decide; C15: endpoint and message id decide): message type, the message id of a (de)registration,
+/// the token of an acknowledgement, a payload, further options. `noise` 0 leaves them at their defaults;
+/// 1..=4 set them (type CON / NON / ACK / RST, ...). The outcome must not depend on them.
+fn decorate(p: &mut Packet, noise: u8, is_ack: bool) {
+    if noise == 0 {
+        return;
+    }
+    p.header.set_type(crate::tbl::mtype((noise - 1) as u64 & 3));
+    if is_ack {
+        p.set_token(vec![0xE0 | noise; noise as usize]);
+    } else {
+        p.header.message_id = 0x1000u16.wrapping_mul(noise as u16) | 0x55;
+    }
+    if noise % 2 == 0 {
+        p.payload = b"x".to_vec();
+    }
+    if noise >= 3 {
+        p.add_option(coap_lite::CoapOption::ETag, vec![noise]);
+        p.add_option(coap_lite::CoapOption::Observe, vec![]);
+    }
+}
+
+fn request(ep: u8, path: &str, tok: &[u8], mid: u16, noise: u8, is_ack: bool) -> CoapRequest<Ep> {
     let mut p = Packet::new();
     p.set_token(tok.to_vec());
     p.header.message_id = mid;
+    let keep_mid = is_ack;
+    decorate(&mut p, noise, is_ack);
+    if keep_mid {
+        p.header.message_id = mid;
+    }
     let mut r: CoapRequest<Ep> = CoapRequest::from_packet(p, Ep(ep));
     r.set_path(path);
     r
 }
 
 fn raw_request(ep: u8, segs: &[Vec<u8>], tok: &[u8]) -> CoapRequest<Ep> {
+    raw_request_n(ep, segs, tok, 0)
+}
+
+fn raw_request_n(ep: u8, segs: &[Vec<u8>], tok: &[u8], noise: u8) -> CoapRequest<Ep> {
     let mut p = Packet::new();
     p.set_token(tok.to_vec());
     for s in segs {
         p.add_option(coap_lite::CoapOption::UriPath, s.clone());
     }
+    decorate(&mut p, noise, false);
     CoapRequest::from_packet(p, Ep(ep))
 }
 
 fn apply(s: &mut Subject<Ep>, op: &Op) {
+    apply_n(s, op, 0)
+}
+
+fn apply_n(s: &mut Subject<Ep>, op: &Op, noise: u8) {
     match op {
-        Op::AckP(e, m, p) => s.acknowledge(&request(*e, p, &[], *m)),
-        Op::RegRaw(e, segs, t) => s.register(&raw_request(*e, segs, t)),
-        Op::DeregRaw(e, segs, t) => s.deregister(&raw_request(*e, segs, t)),
-        Op::Reg(e, p, t) => s.register(&request(*e, p, t, 0)),
-        Op::Dereg(e, p, t) => s.deregister(&request(*e, p, t, 0)),
+        Op::AckP(e, m, p) => s.acknowledge(&request(*e, p, &[], *m, noise, true)),
+        Op::RegRaw(e, segs, t) => s.register(&raw_request_n(*e, segs, t, noise)),
+        Op::DeregRaw(e, segs, t) => s.deregister(&raw_request_n(*e, segs, t, noise)),
+        Op::Reg(e, p, t) => s.register(&request(*e, p, t, 0, noise, false)),
+        Op::Dereg(e, p, t) => s.deregister(&request(*e, p, t, 0, noise, false)),
         Op::Chg(p, m, c) => s.resource_changed(p, *m, *c),
-        Op::Ack(e, m) => s.acknowledge(&request(*e, "", &[], *m)),
+        Op::Ack(e, m) => s.acknowledge(&request(*e, "", &[], *m, noise, true)),
         Op::Limit(l) => s.set_unacknowledged_limit(*l),
         Op::Seq(p, n) => s.verif_set_sequence(p, *n),
     }
@@ -276,11 +313,15 @@ fn all_paths(ops: &[Op], extra: &[String]) -> BTreeSet<String> {
 
 /// run a whole history; returns (dump-with-seq after each op) or None on panic
 fn run_real(ops: &[Op], paths: &BTreeSet<String>) -> Option<Vec<String>> {
+    run_real_n(ops, paths, 0)
+}
+
+fn run_real_n(ops: &[Op], paths: &BTreeSet<String>, noise: u8) -> Option<Vec<String>> {
     guarded(|| {
         let mut s: Subject<Ep> = Subject::default();
         let mut outs = vec![];
         for (i, o) in ops.iter().enumerate() {
-            apply(&mut s, o);
+            apply_n(&mut s, o, noise);
             outs.push(dump(&s, limit_after(&ops[..=i]), paths, true));
         }
         outs
@@ -288,6 +329,24 @@ fn run_real(ops: &[Op], paths: &BTreeSet<String>) -> Option<Vec<String>> {
 }
 
 fn check_oracle(cx: &mut Ctx, line: &str, ops: &[Op], paths: &BTreeSet<String>, real: &Option<Vec<String>>) {
+    // the same history with the fields the contract does not name set to other values: same outcome
+    if real.is_some() {
+        for noise in 1..=4u8 {
+            let noisy = run_real_n(ops, paths, noise);
+            if &noisy != real {
+                let at = match (&noisy, real) {
+                    (Some(a), Some(b)) => a.iter().zip(b.iter()).position(|(x, y)| x != y).unwrap_or(0),
+                    _ => 0,
+                };
+                let prop = match ops.get(at) {
+                    Some(Op::Reg(..)) | Some(Op::Dereg(..)) | Some(Op::RegRaw(..)) | Some(Op::DeregRaw(..)) => "C14",
+                    _ => "C15",
+                };
+                cx.oracle_fail(prop, line, &format!("the outcome of op {} depends on a field of the request object the contract does not name (variant {}: message type {}, {} ): {} instead of {}", at + 1, noise, ["CON", "NON", "ACK", "RST"][(noise as usize - 1) & 3], "ack token / message id / payload / extra options set", noisy.as_ref().and_then(|v| v.get(at).cloned()).unwrap_or("panic".into()), real.as_ref().and_then(|v| v.get(at).cloned()).unwrap_or_default()));
+                break;
+            }
+        }
+    }
     let mut r = RefSubject { limit: 10, res: BTreeMap::new() };
     match real {
         None => {
@@ -475,6 +534,27 @@ pub fn run(cx: &mut Ctx) {
     cx.stat_n("bfs_transitions", transitions);
     cx.exhaustive.push(format!("every one of {} operations out of every distinct registry state reachable within depth {} (2 endpoints x 2 tokens x 2 paths x 2 mids x CON/NON x limits 0,1,2)", alphabet.len(), depth));
 
+    // ---- 1b. tokens of every length relation (empty / prefix / equal / longer) between the registered
+    //          observer and the request that deregisters or re-registers it, then a change and an ack
+    {
+        let toks: [Vec<u8>; 4] = [vec![], vec![0xa], vec![0xa, 0xb], vec![0xa, 0xb, 0xc, 0xd, 0xe, 0xf, 1, 2]];
+        for t1 in &toks {
+            for t2 in &toks {
+                for e2 in [1u8, 17, 2] {
+                    for second in 0..2 {
+                        let mut ops = vec![Op::Reg(1, "p".into(), t1.clone()), Op::Reg(2, "p".into(), vec![0x77]), Op::Chg("p".into(), 10, true)];
+                        ops.push(if second == 0 { Op::Dereg(e2, "p".into(), t2.clone()) } else { Op::Reg(e2, "p".into(), t2.clone()) });
+                        ops.push(Op::Chg("p".into(), 11, true));
+                        ops.push(Op::Ack(1, 11));
+                        ops.push(Op::Ack(2, 10));
+                        ops.push(Op::Chg("p".into(), 12, true));
+                        case_trace(cx, &ops);
+                    }
+                }
+            }
+        }
+    }
+
     // ---- 2. random histories of length 200 over larger alphabets
     let nh = if thorough { 1500 } else { 250 };
     let bigpaths = ["a", "a/b", "/a", "sensors/temp", "", "x"];
@@ -600,7 +680,7 @@ pub fn run(cx: &mut Ctx) {
         let line = "OBS soak 4294967298".to_string();
         let r = guarded(|| {
             let mut s: Subject<Ep> = Subject::default();
-            s.register(&request(1, "p", &[1], 0));
+            s.register(&request(1, "p", &[1], 0, 0, false));
             for i in 0..(1u64 << 32) + 2 {
                 s.resource_changed("p", i as u16, false);
             }
